@@ -28,7 +28,7 @@ P = {
          "Not proved: the equivalence on graphs with cycles (refuted there: K-WG-cycles). Known findings K-WG-cycles and K-C04-operands."),
  "C06": ("Same model as C04: the only schedule (start order) is an argument of the model; theorems in Properties/C06.v (independence of the order of type definitions; on graphs without cycles the weights do not depend on the start order at all — both orders give the order-free specification); all outcomes of a model (explicit orders, repeated unhooked Build, permuted type definitions) compared.",
          "Inner map iteration orders and concurrency are sampled by repetition; known finding K-WG-cycles."),
- "C07": ("Coq transcription of TransformModuleFilesToModel (Model/Merge.v) over the parser model; theorems in Properties/C07.v, among them THE EQUIVALENCE: for every list of module files as the parser delivers them (decidable well-formedness, evaluated per run) merge succeeds iff the list is conflict-free in the order-free sense of Spec/MergeSpec.v, and on success returns the declared types in file order with exactly the contributed relation names and the attributed conditions (Proofs/MergeIff.v); the decidable form of the specification is evaluated by the extracted model on every generated set and compared with the implementation's verdict; correspondence on generated module sets with a catalogue of injected conflicts; "
+ "C07": ("Coq transcription of TransformModuleFilesToModel (Model/Merge.v) over the parser model; theorems in Properties/C07.v, among them THE EQUIVALENCE: for every list of module files as the parser delivers them (decidable well-formedness, evaluated per run) merge succeeds iff the list is conflict-free in the order-free sense of Spec/MergeSpec.v, and on success returns the declared types in file order with exactly the contributed relation names and the attributed conditions (Proofs/MergeIff.v), and THE CONTENT: every declared relation reads back with its rewrite unchanged, a definition's relation with its metadata, an extension's relation with the extending file, every type with the module and file of its definition, nothing else present (Proofs/MergeContent.v); the decidable form of the specification is evaluated by the extracted model on every generated set and compared with the implementation's verdict; correspondence on generated module sets with a catalogue of injected conflicts; "
          "conflict-freedom and the exact attributed union computed from the generator's syntax trees as oracle.",
          "Syntax errors inside files are compared as opaque entries."),
  "C08": ("Theorems in Properties/C08.v (panic-freedom of the modelled control flow: printer, listener, ParseDSL, both graph stages, fga.mod, and the module merge on parser-delivered files); PANIC and TIMEOUT are observables of every harness call; mutation fuzzing of the corpus, degenerate protobuf models, damaged module sets and manifests; scaled inputs timed.",
@@ -39,7 +39,7 @@ P = {
          "Operator node names are canonicalised structurally (ULIDs are random)."),
  "C11": ("Same model as C04 (wildcard propagation transcribed); theorems in Properties/C11.v: on graphs without cycles, for every start order, the list of a node holds exactly the public types whose wildcard node is reachable (inductive reachability), each edge carries its target's set, and no list has duplicates; the executable form (spec_wildcards) is compared with the implementation's lists per run; wildcard lists of every node and edge against reachability of T:* nodes in the built graph, per explicit start order.",
          "Known finding K-WG-cycles delimits the unproved cyclic part."),
- "C12": ("Model/Merge.merge takes no iteration-order argument (after repair F5); theorems in Properties/C12.v: conflict-freedom is invariant under permutation of the files, hence permuting the list never changes whether the merge succeeds (for every list); each list merged repeatedly in one process, all permutations of small lists, correspondence per permutation.",
+ "C12": ("Model/Merge.merge takes no iteration-order argument (after repair F5); theorems in Properties/C12.v: conflict-freedom is invariant under permutation of the files, hence permuting the list never changes whether the merge succeeds (for every list), and on success the permuted list yields the same model up to the order of type definitions and map enumeration: same schema, permuted type names, identical module/file/rewrite/metadata/condition readings (Proofs/MergeContent.v); each list merged repeatedly in one process, all permutations of small lists, correspondence per permutation.",
          "The well-formedness of parser output is itself a theorem (every list of files with distinct names). Not proved: that a successful merge of a permuted list returns the same types up to order (observed per run). Go map order is sampled by repetition."),
  "C13": ("Frame theorems in Properties/C13.v; argument-after-call observables for the printer, both graph builders and the merge; the same batch of calls in two orders, after warm-up and from 16 goroutines compared result by result; one shared model from 8 goroutines, also under the Go race detector.",
          "Partial by nature: data races and ANTLR cache state are outside any Gallina model; the race detector run is supporting evidence."),
